@@ -213,7 +213,8 @@ func (e *emitter) table() {
 		e.id("ks1")
 		e.glue(".")
 	}
-	e.id("tbl")
+	// (mostly "tbl"; sometimes a name that is also an unreserved keyword of a statement's own grammar)
+	e.id(pick(e.lit, "tbl", "tbl", "tbl", "json", "events", "tbl", "json"))
 }
 
 func (e *emitter) col() { e.id(pick(e.lit, "k", "v", "c1", "col_a", "data", "x9")) }
